@@ -43,17 +43,25 @@ def idp_strategy():
                                   'self_contained': st.booleans(), 'enc_keys': st.sampled_from([[2], [2, 3], [3, 2]]),
                                   'md': st.sampled_from(['generated', 'generated', 'use-less', 'signing+use-less', 'encryption-only']),
                                   # the caller may name the certificate to encrypt for (e.g. the one carried in a PEFIM request): pool index, or None = the SP's metadata certificate
-                                  'explicit': st.sampled_from([None, None, None, 3, 4, 2]),
+                                  'explicit': st.sampled_from([None, None, None, 3, 4, 2, 6]),
                                   # how the wish to encrypt reaches the IdP: as an argument of the call, or as `encrypt_assertion` in its service/idp configuration
                                   'asked_by': st.sampled_from(['argument', 'argument', 'config']),
                                   # what the deployment did with the live configuration object before: nothing / rendered its own metadata from it (the entity also serves aa)
-                                  'before': st.sampled_from([None, None, 'metadata-rendered'])})
+                                  'before': st.sampled_from([None, None, 'metadata-rendered']),
+                                  # the IdP operator's hook that vets certificates named in requests (verify_encrypt_cert_assertion / _advice): accepts pool certificate 6 only
+                                  'hook': st.sampled_from([False, False, False, True])})
 
 
-def pair(enc_keys, md='generated', conf_encrypt=False):
-    k = (tuple(enc_keys), md, conf_encrypt)
+def _only_pool_6(cert):
+    return ''.join(str(cert).split()).replace('-----BEGINCERTIFICATE-----', '').replace('-----ENDCERTIFICATE-----', '') == world.cert_body(6)
+
+
+def pair(enc_keys, md='generated', conf_encrypt=False, hook=False):
+    k = (tuple(enc_keys), md, conf_encrypt, hook)
     if k not in _pairs:
         idp_spec = {'encrypt_assertion': True, 'aa': [('https://idp.verif.example/aa', world.SOAP)]} if conf_encrypt else None
+        if hook:
+            idp_spec = dict(idp_spec or {}, verify_encrypt_cert_assertion=_only_pool_6, verify_encrypt_cert_advice=_only_pool_6)
         sp, idp, spmd, idpmd = world.pair({'enc_keys': list(enc_keys), 'want_response_signed': False}, idp_spec)
         if md != 'generated':
             # SP metadata as other products write it: key descriptors without a use attribute serve signing and encryption
@@ -68,7 +76,7 @@ def pair(enc_keys, md='generated', conf_encrypt=False):
 def run_idp(case):
     from saml2_tophat import saml
     by_conf = case.get('asked_by') == 'config' or case.get('before') is not None
-    sp, idp = pair(case['enc_keys'], case.get('md', 'generated'), by_conf)
+    sp, idp = pair(case['enc_keys'], case.get('md', 'generated'), by_conf, bool(case.get('hook')))
     clock.set_now(NOW)
     identity = dict((k, list(v)) for k, v in case['identity'].items())
     mode = case['mode']
@@ -94,7 +102,11 @@ def run_idp(case):
     try:
         xml = str(idp.create_authn_response(dict(identity), **kw))
     except Exception as e:
-        return 'idp-raises|' + type(e).__name__, False
+        return 'idp-raises|' + type(e).__name__ + ('|hook' if case.get('hook') else ''), bool(case.get('hook'))
+    if case.get('hook') and case.get('explicit') != 6:
+        # the operator's hook accepts pool certificate 6 only: a response must not be produced for a named certificate it refuses, nor without a named one
+        raise Violation('refused-certificate-used', 'mode %s: the IdP\'s certificate hook accepts pool certificate 6 only; the request named %s and a response was emitted all the same'
+                        % (mode, 'pool certificate %r' % case['explicit'] if case.get('explicit') is not None else 'none'))
     if not has_encrypted(xml):
         # nothing was encrypted although it was asked for and the SP has an encryption certificate
         raise Violation('not-encrypted', 'mode %s: the SP has encryption certificates %r but the response contains no EncryptedData' % (mode, case['enc_keys']))
